@@ -1,43 +1,75 @@
 #!/bin/sh
-# usage: run.sh [<include-dir>] [asan|tsan]      (defaults: /repo/include, asan)
-# Builds replay.cpp against <include-dir> with clang++ and the chosen sanitizer, runs it, cleans up.
-# exit 1 = defect present (sanitizer reported a use of the destroyed queue; a "DEFECT:" line is printed),
-# exit 0 = OK, exit 2 = replay broken (build failed / no sanitizer).
+# usage: run.sh [<include-dir>] [both|tsan|asan]      (defaults: /repo/include, both)
+# Builds replay.cpp against <include-dir> with clang++ and the chosen sanitizer(s), runs it, cleans up.
+#   tsan : reports the race ~BlockingQueue()/operator delete vs. the woken callers from the happens-before
+#          graph -> independent of timing (30/30 runs, first round, on the unfixed tree)
+#   asan : needs the free to win the race: heap-use-after-free in the wait predicate, or a woken caller
+#          blocked for ever on the freed mutex (the replay's 3 s watchdog) -> within a few rounds
+#   both : tsan first; asan only if tsan found nothing (so a fixed tree has to pass both)
+# exit 1 = defect present (a "DEFECT:" line is printed), exit 0 = OK, exit 2 = replay broken (build failed).
 INC="${1:-/repo/include}"
-MODE="${2:-asan}"
+MODE="${2:-both}"
 HERE="$(cd "$(dirname "$0")" && pwd)"
 T="$(mktemp -d /tmp/c10-blocking-queue-destroyed-under-blocked-callers.XXXXXX)" || exit 2
 trap 'rm -rf "$T"' EXIT INT TERM
 
 case "$MODE" in
-  asan) SAN="-fsanitize=address" ;;
-  tsan) SAN="-fsanitize=thread" ;;
-  *) echo "ERROR: unknown mode '$MODE' (asan|tsan)"; exit 2 ;;
+  both) MODES="tsan asan" ;;
+  tsan|asan) MODES="$MODE" ;;
+  *) echo "ERROR: unknown mode '$MODE' (both|tsan|asan)"; exit 2 ;;
 esac
 
-if ! clang++ -std=c++17 -O1 -g -fno-omit-frame-pointer $SAN -I"$INC" "$HERE/replay.cpp" -o "$T/replay" -lpthread
-then
-  echo "ERROR: build failed"
-  exit 2
-fi
+for M in $MODES
+do
+  case "$M" in
+    asan) SAN="-fsanitize=address" ;;
+    tsan) SAN="-fsanitize=thread" ;;
+  esac
+  clang++ -std=c++17 -O1 -g -fno-omit-frame-pointer $SAN -I"$INC" "$HERE/replay.cpp" -o "$T/replay_$M" -lpthread \
+    2>"$T/build_$M.log" &
+done
+wait
+for M in $MODES
+do
+  if [ ! -x "$T/replay_$M" ]
+  then
+    cat "$T/build_$M.log"
+    echo "ERROR: build failed ($M)"
+    exit 2
+  fi
+done
 
-# The program sets halt_on_error/exitcode itself (__asan_default_options / __tsan_default_options) and
-# prints the DEFECT line from the sanitizer's report hook; the options are repeated here so that an
-# inherited ASAN_OPTIONS/TSAN_OPTIONS cannot turn the report into a non-fatal one.
-ASAN_OPTIONS="halt_on_error=1:exitcode=1:detect_leaks=0" \
-TSAN_OPTIONS="halt_on_error=1:exitcode=1:report_signal_unsafe=0" \
-  "$T/replay" 2>"$T/stderr"
-RC=$?
+for M in $MODES
+do
+  # The program sets halt_on_error/exitcode itself (__asan_default_options / __tsan_default_options) and
+  # prints the DEFECT line from the sanitizer's report hook; the options are repeated here so that an
+  # inherited ASAN_OPTIONS/TSAN_OPTIONS cannot turn the report into a non-fatal one.
+  echo "-- $M build:"
+  ASAN_OPTIONS="halt_on_error=1:exitcode=1:detect_leaks=0" \
+  TSAN_OPTIONS="halt_on_error=1:exitcode=1:report_signal_unsafe=0" \
+    "$T/replay_$M" 2>"$T/stderr"
+  RC=$?
 
-if grep -q -e 'ERROR: AddressSanitizer' -e 'WARNING: ThreadSanitizer' "$T/stderr"
-then
-  # Belt and braces: a sanitizer report is the defect even if the hook could not print.
-  grep -m1 -e 'ERROR: AddressSanitizer' -e 'WARNING: ThreadSanitizer' "$T/stderr" | sed 's/^/DEFECT (sanitizer): /'
-  # first frames of the report, for the reader
-  grep -m6 -E '^ +#[0-9]+ ' "$T/stderr" | sed 's/^/  /'
-  [ "$RC" -eq 0 ] && RC=1
-elif [ "$RC" -ne 0 ] && [ -s "$T/stderr" ]
-then
-  sed 's/^/  stderr: /' "$T/stderr" | head -20
-fi
-exit $RC
+  if grep -q -e 'ERROR: AddressSanitizer' -e 'WARNING: ThreadSanitizer' "$T/stderr"
+  then
+    # the sanitizer's own headline and the first frames, for the reader
+    grep -m1 -e 'ERROR: AddressSanitizer' -e 'WARNING: ThreadSanitizer' "$T/stderr" | cut -c1-160 | sed 's/^/  /'
+    grep -m4 -E '^ +#[0-9]+ .*(blocking_queue\.hpp|operator delete|replay\.cpp)' "$T/stderr" | cut -c1-200 | sed 's/^/  /'
+    if [ "$RC" -eq 0 ]
+    then
+      echo "DEFECT: sanitizer report (see above)"
+      RC=1
+    fi
+  elif [ "$RC" -ne 0 ] && [ -s "$T/stderr" ]
+  then
+    head -20 "$T/stderr" | sed 's/^/  stderr: /'
+  fi
+  if [ "$RC" -ne 0 ] && [ "$RC" -ne 2 ]
+  then
+    # killed by a signal etc.: still the defect (nothing but the queue is exercised)
+    [ "$RC" -ne 1 ] && echo "DEFECT: replay died with status $RC while callers were leaving the destroyed queue"
+    exit 1
+  fi
+  [ "$RC" -eq 2 ] && exit 2
+done
+exit 0
